@@ -578,6 +578,13 @@ def run_check(spec, tier, verif_seed, n_runs=None, workers=None, first_run=0):
         v = viol[s]
         case = v["case"]
         try:
+            if hasattr(spec, "explicate"):
+                # e.g. replace a seeded scheduling policy by the explicit
+                # schedule it produced, so that the replay file holds the list
+                ecase = spec.explicate(case)
+                eout = spec.execute(ecase)
+                if eout.status == VIOLATION and eout.sig == s:
+                    case = ecase
             mcase, nexec = minimise(spec, case, s)
             out = spec.execute(mcase)
         except Exception as exc:
